@@ -32,7 +32,7 @@ func init() {
 		Shards:    shards(8, 16),
 		Timeout:   timeouts(3*time.Minute, 40*time.Minute),
 		MinEvals:  100,
-		Required:  []string{"requests_dispatched", "replies_checked", "duplicate_probes", "inversions", "error_replies", "instant_completions", "tag_reuses", "serve_returned"},
+		Required:  []string{"requests_dispatched", "replies_checked", "duplicate_probes", "inversions", "error_replies", "instant_completions", "tag_reuses", "serve_returned", "duplicate_bursts"},
 		Run:       runC06,
 	})
 }
@@ -394,6 +394,38 @@ func runC06Script(w *mon.W, no int) {
 				return
 			}
 			if !absorb([]*c06req{rq}) || !checkReplies([]*c06req{rq}, nil) {
+				return
+			}
+		case op == 5 && len(parked) >= 2: // several duplicates of different outstanding tags back to back
+			k := 2 + w.Rng.Intn(3)
+			if k > len(parked) {
+				k = len(parked)
+			}
+			perm := w.Rng.Perm(len(parked))[:k]
+			var want []*p9p.Fcall
+			var burst []byte
+			for _, pi := range perm {
+				orig := parked[pi]
+				uid++
+				m := requestWithUID(g, kinds[w.Rng.Intn(len(kinds))], uid)
+				fc := &p9p.Fcall{Type: m.Type(), Tag: orig.tag, Message: m}
+				trace = append(trace, fmt.Sprintf("send DUPLICATE(burst) %s tag=%d uid=%d", fc.Type, orig.tag, uid))
+				burst = append(burst, refcodec.MustFrame(fc)...)
+				want = append(want, &p9p.Fcall{Type: p9p.Rerror, Tag: orig.tag, Message: p9p.MessageRerror{Ename: enameOf(p9p.ErrDuptag)}})
+			}
+			h.sendRaw(burst) // one write: the server reads them without a pause in between
+			if !settle() {
+				w.Inconclusive("watchdog")
+				return
+			}
+			w.Count("duplicate_probes", int64(k))
+			w.Count("duplicate_bursts", 1)
+			nontrivial = true
+			if sh.count() != seenInv {
+				bad("duplicate-dispatched", "a request reusing an outstanding tag was dispatched to the handler")
+				return
+			}
+			if !checkReplies(nil, want) {
 				return
 			}
 		case op == 5 || op == 6: // duplicate of an outstanding tag
